@@ -554,7 +554,46 @@ def numeric_family(rep, tier: str) -> None:
                                   f"{'not a word of the grammar' if not ok_word else f'its value is {int(sol)}, requested {v}'}",
                                   dict(module=MODULE, case=dict(family="numeric", grammar=gname, g=g, constraint=text, value=v,
                                                                 call=call), got=sol))
-    rep.section("numeric", evaluations=n, grammars=len(NUMERIC_GRAMMARS), values=list(values))
+    # (c') the helper itself: ISLaSolver.extract_model_value for an int variable whose Z3 model value is V
+    import z3 as _z3
+    import isla.language as _L
+    from isla.z3_helpers import z3_eq as _z3_eq
+    direct_grammars = dict(NUMERIC_GRAMMARS)
+    direct_grammars["two-zeros-then-number-optional-sign"] = {
+        "<start>": ["<int>"], "<int>": ["<sign>00<leaddigit><digits>"], "<sign>": ["", "-", "+"],
+        "<digits>": ["", "<digit><digits>"], "<digit>": list("0123456789"), "<leaddigit>": list("123456789")}
+    n_direct = 0
+    for gname, g in direct_grammars.items():
+        for v in (5, 15, -5, -15, -105, 1, -1, 42, -17, -120):
+            var = _L.Variable("i", "<int>")
+            const = _z3.Int("i_0")
+            zs = _z3.Solver()
+            zs.add(_z3_eq(const, _z3.IntVal(v)))
+            if zs.check() != _z3.sat:
+                continue
+            n += 1
+            n_direct += 1
+            rep.case(key=("numeric-direct", gname, v), nontrivial=True)
+            try:
+                solver = ISLaSolver(g)
+                tree = solver.extract_model_value(var, zs.model(), {var: const}, set(), {var})
+            except Exception as exc:  # noqa
+                # no word of <int> has this value (digits / width of the grammar), or Z3's 300 ms budget was exceeded
+                rep.note_inconclusive(f"numeric-direct: {gname} value {v}: {type(exc).__name__}: {str(exc)[:80]}")
+                continue
+            sol = str(tree)
+            try:
+                ok_val = int(sol) == v
+            except ValueError:
+                ok_val = False
+            ok_root = tree.value == "<int>" and not tree.is_open()
+            if not (ok_val and ok_root):
+                rep.violation(f"numeric-requirement:extract_model_value:{gname}:{'wrong-value' if ok_root else 'wrong-root-or-open'}:"
+                              f"{'negative' if v < 0 else 'non-negative'}",
+                              f"ISLaSolver({gname}).extract_model_value(<int> variable, model value {v}) built the tree "
+                              f"{sol!r} (root {tree.value})" + (f": its value is {int(sol)}" if not ok_val and sol.lstrip('+-').isdigit() else ""),
+                              dict(module=MODULE, case=dict(family="numeric-direct", grammar=gname, g=g, value=v), got=sol))
+    rep.section("numeric", evaluations=n, direct_calls=n_direct, grammars=len(NUMERIC_GRAMMARS), values=list(values))
     rep.rule("(c) numeric: fixed-width signed numerals; constraint str.to.int(<int>) = V for small positive / negative / "
              "zero V; every returned tree is a word whose decimal value is V")
 
@@ -562,6 +601,21 @@ def numeric_family(rep, tier: str) -> None:
 def replay(path: str) -> int:
     data = load_replay(path)
     c = data["case"]
+    if c["family"] == "numeric-direct":
+        import z3 as _z3
+        import isla.language as _L
+        from isla.solver import ISLaSolver
+        from isla.z3_helpers import z3_eq as _z3_eq
+        var = _L.Variable("i", "<int>")
+        const = _z3.Int("i_0")
+        zs = _z3.Solver()
+        zs.add(_z3_eq(const, _z3.IntVal(c["value"])))
+        zs.check()
+        tree = ISLaSolver(c["g"]).extract_model_value(var, zs.model(), {var: const}, set(), {var})
+        print(f"replay C14: extract_model_value(<int>, {c['value']}) on {c['grammar']} -> {str(tree)!r}")
+        bad = int(str(tree)) != c["value"]
+        print("  verdict:", "VIOLATED" if bad else "holds")
+        return 1 if bad else 0
     if c["family"] == "numeric":
         import random as _random
         from isla.solver import ISLaSolver
